@@ -183,6 +183,13 @@ pub fn suite_qualmap(ctx: &Ctx, thorough: bool) {
                         if r.as_str() != mv.as_str() { ctx.violate("C11.entry", "and_modify / or_insert behave like the reference", json!({"key": k}), r.to_string(), mv.clone()); }
                     }
                     check_rep(ctx, &q, &m, "and_modify.or_insert");
+                    // a closure that empties the value: the entry stays (an empty value is a value), or_insert* must not replace it
+                    let mut q = build(&c);
+                    let mut m = m0.clone();
+                    let r = guarded(|| { if let Ok(e) = q.entry(*k) { let x = e.and_modify(|s| s.clear()).or_insert_with(|| *v); x.push('+'); } });
+                    if valid(k) { m.entry(lk.clone()).and_modify(|s| s.clear()).or_insert_with(|| v.to_string()).push('+'); }
+                    if let Err(p) = r { ctx.violate("C06.panic", "and_modify / or_insert_with never panic", json!({"content": format!("{c:?}"), "key": k}), p, "no panic".into()); }
+                    else { check_rep(ctx, &q, &m, "and_modify(clear).or_insert_with"); }
                     let mut q = build(&c);
                     let mut m = m0.clone();
                     if let Ok(Entry::Occupied(o)) = q.entry(*k) {
@@ -295,6 +302,23 @@ pub fn suite_builder(ctx: &Ctx, thorough: bool) {
         for _ in 0..l { seq.push(ops[idx % n].clone()); idx /= n; }
         builder_one(ctx, seq);
     });
+    // qualifier calls in depth: every sequence of <= 5 / 6 set / unset calls over keys that meet in every order and letter case
+    // (a bug that needs three inserts, a removal and another insert to show is out of reach of the general sequences above)
+    {
+        let mut qops: Vec<Op> = vec![];
+        for k in ["a", "b", "c", "B"] { qops.push(Op::Q(k, "x")); qops.push(Op::NoQ(k)); }
+        qops.push(Op::Q("c", ""));
+        let depth = if thorough { 6 } else { 5 };
+        let nq = qops.len();
+        let total_q = (1..=depth).map(|l| nq.pow(l as u32)).sum::<usize>();
+        par_for(total_q, &|mut idx| {
+            let mut l = 1; let mut block = nq;
+            while idx >= block { idx -= block; l += 1; block = nq.pow(l as u32); }
+            let mut seq = vec![];
+            for _ in 0..l { seq.push(qops[idx % nq].clone()); idx /= nq; }
+            builder_one(ctx, seq);
+        });
+    }
     // SCALE: the same oracle on single calls (and pairs with a second field) whose argument is grown across the size thresholds
     let mut big: Vec<&'static str> = vec![];
     for n in thresholds(thorough) {
